@@ -217,7 +217,9 @@ CHECKS = {
               "mirroring negate's case analysis: no atoms / grouped non-negative atoms / wrapped boolean atoms / not pushed) "
               "reads back as the complement, for nodes of any class; build_roundtrip — the same for what the constructors build "
               "(every constructor expression over the plog classes, RTExpr, builds a model of the fragment: closure of the "
-              "fragment under negate plus the shape each constructor produces); defaults_kept — whenever the configurator's class map "
+              "fragment under negate plus the shape each constructor produces); ccXor_items_roundtrip / ccAny_items_roundtrip "
+              "— a defaulted cc.Xor / cc.Any over items, through the configurator's class map, is read back as the same class "
+              "over the same items with the same default and evaluates identically; defaults_kept — whenever the configurator's class map "
               "reads back what a cc.Any / cc.Xor node wrote, the model it builds carries the same default; evaluation and "
               "default priorities of the configurator classes are tied by correspondence + oracle only; "
               "id_written_iff — for every class an explicitly given id is written and a generated one is not. Tie: to_json "
@@ -242,7 +244,8 @@ CHECKS = {
         text=("Theorems (Props/C18.lean): add_eq_mk (add returns the configurator built from the current rules followed by the new "
               "one under the same id), add_keeps_id, add_refuses / add_accepts (refusal exactly when the rule's id names a "
               "top-level rule or item), addAll_kids (any sequence of additions ends in the id-sorted union of old and new "
-              "rules, i.e. the directly constructed configurator; via uniqueness of sorted arrangements for distinct ids). "
+              "rules, i.e. the directly constructed configurator; via uniqueness of sorted arrangements for distinct ids), "
+              "add_semantics (the extended configurator holds exactly when the old rules and the new rule hold). "
               "Tie: add() output compared structurally with the model; oracle: add vs direct construction observed through "
               "structure, default prios, polyhedron + default priority vector, objectives and solutions with a recorder and "
               "an exact solver; original snapshotted after every add."),
